@@ -188,10 +188,10 @@ theorem shifted_eq (ptr0 : List Int) (p0 : Int) (h0 : 0 ≤ p0) (h063 : p0 < 922
     intro p hp
     exact shift_eq_sub p0 p h0 (hmem p hp).1 (hmem p hp).2
 
-theorem binCrsBody_wf (memLimit vsz : Nat) (dec : Bytes → V) (file : Bytes) (n : Nat) (b e : Int)
-    (hb : 0 ≤ b) (hbe : b ≤ e) :
-    binCrsBody true memLimit vsz dec file n b e = .error ∨
-    ∃ A, binCrsBody true memLimit vsz dec file n b e = .ok A ∧ A.PtrWF ∧ A.nrows = (e - b).toNat := by
+theorem binCrsBody_wf (memLimit csz : Nat) (cdec : Bytes → Int) (vsz : Nat) (dec : Bytes → V) (file : Bytes) (n : Nat)
+    (b e : Int) (hb : 0 ≤ b) (hbe : b ≤ e) :
+    binCrsBody true memLimit csz cdec vsz dec file n b e = .error ∨
+    ∃ A, binCrsBody true memLimit csz cdec vsz dec file n b e = .ok A ∧ A.PtrWF ∧ A.nrows = (e - b).toNat := by
   unfold binCrsBody
   simp only []
   split
@@ -245,7 +245,7 @@ theorem binCrsBody_wf (memLimit vsz : Nat) (dec : Bytes → V) (file : Bytes) (n
   · left; rfl
   rename_i vb hvb
   -- the sort loop stays inside `col/val`
-  have hzip : ((List.map (fun x => toS64 (leVal x)) (splitEvery 8 (pl - a).toNat cb)).zip
+  have hzip : ((List.map cdec (splitEvery csz (pl - a).toNat cb)).zip
       (List.map dec (splitEvery vsz (pl - a).toNat vb))).length = (pl - a).toNat := by
     simp [List.length_zip, splitEvery_length]
   have hmono' : monotone (ptr0.map (· - a)) = true := by rw [monotone_map_sub]; exact hmono
@@ -271,9 +271,10 @@ variable {V : Type}
 
 /-- **Every input**: the repaired `read_crs` throws or returns structurally valid arrays; it never touches memory
 outside its buffers. -/
-theorem binReadCrs_error_or_wf (memLimit vsz : Nat) (dec : Bytes → V) (file : Bytes) (rb re : Int) :
-    binReadCrs true memLimit vsz dec file rb re = .error ∨
-    ∃ A, binReadCrs true memLimit vsz dec file rb re = .ok A ∧ A.PtrWF := by
+theorem binReadCrs_error_or_wf (memLimit csz : Nat) (cdec : Bytes → Int) (vsz : Nat) (dec : Bytes → V) (file : Bytes)
+    (rb re : Int) :
+    binReadCrs true memLimit csz cdec vsz dec file rb re = .error ∨
+    ∃ A, binReadCrs true memLimit csz cdec vsz dec file rb re = .ok A ∧ A.PtrWF := by
   unfold binReadCrs
   split
   · left; rfl
@@ -281,7 +282,7 @@ theorem binReadCrs_error_or_wf (memLimit vsz : Nat) (dec : Bytes → V) (file : 
     · left; rfl
     · rename_i b e hr
       obtain ⟨hb, hbe, _, _, _⟩ := rowRange_fixed _ _ _ _ _ hr
-      rcases binCrsBody_wf memLimit vsz dec file _ b e hb hbe with h | ⟨A, h1, h2, _⟩
+      rcases binCrsBody_wf memLimit csz cdec vsz dec file _ b e hb hbe with h | ⟨A, h1, h2, _⟩
       · left; exact h
       · right; exact ⟨A, h1, h2⟩
 
